@@ -12,8 +12,11 @@ FIRST = {  # what the quick checks reported when the change arrived (before the 
  "S108": "-", "S109": "-", "S110": "-", "S111": "C08", "S112": "-", "S113": "-", "S114": "C10", "S115": "-", "S116": "C06", "S117": "C09",
  "S118": "-", "S119": "-", "S120": "C01", "S121": "C10", "S122": "-", "S123": "-", "S124": "C01", "S125": "C12", "S126": "C07", "S127": "C06", "S128": "C10", "S129": "C09", "S130": "C03",
  "S131": "C02, C01", "S132": "C18", "S133": "C15, C01", "S134": "C01", "S135": "C17", "S136": "C03", "S137": "-", "S138": "C17", "S139": "-", "S140": "C12", "S141": "C06", "S142": "C18", "S143": "C14",
+ "S144": "C11", "S145": "-", "S146": "C11", "S147": "-", "S148": "C07", "S149": "C08", "S150": "C08", "S151": "C09",
+ "S152": "C16", "S153": "-", "S154": "C16", "S155": "C13", "S156": "C12", "S157": "-", "S158": "-", "S159": "C14",
+ "S160": "- (**)", "S161": "-", "S162": "-", "S163": "-", "S164": "C03", "S165": "C18", "S166": "C17", "S167": "C04",
  "S81": "-", "S82": "-", "S83": "-", "S84": "C06", "S85": "-", "S86": "C18", "S87": "C02", "S88": "-", "S89": "C02, C01", "S90": "C18", "S91": "C18", "S92": "C17", "S93": "C01"}
-for rnd in (2, 3, 4, 5, 6):
+for rnd in (2, 3, 4, 5, 6, 7):
     print("\n| id | breaks | site | caught at first run by | caught now by |\n|---|---|---|---|---|")
     for p in sorted(glob.glob(os.path.join(V, "seeded", "S*", "meta.json")), key=lambda q: int(re.search(r"S(\d+)", q).group(1))):
         m = json.load(open(p))
